@@ -22,6 +22,7 @@
 -/
 import Vita.C09.LemmasRead
 import Vita.C09.LemmasSniff
+import Vita.C09.LemmasTable
 
 namespace Vita.C09
 
@@ -34,7 +35,7 @@ variable {F : Type}
     the rendered line gives the fields back (trimmed when `trim_ws` is on), also when the line
     ends with the CR of a CR LF pair. -/
 theorem parse_render (d : Char) (trimWs : Bool) (eol : Str) (fields : List (Str × Bool))
-    (h0 : d ≠ '\x00') (hq : d ≠ '"') (heol : EolOK d eol) (hne : fields ≠ [])
+    (h0 : d ≠ '\x00') (hq : d ≠ QUOTE) (heol : EolOK d eol) (hne : fields ≠ [])
     (hclean : ∀ p ∈ fields, Clean p.1) (hquoted : ∀ p ∈ fields, needsQuote d p.1 = true → p.2 = true) :
     parseLine { delim := d, trimWs := trimWs } (renderLine d fields ++ eol) =
       fields.map (fun p => if trimWs then trim p.1 else p.1) := by
@@ -46,7 +47,7 @@ theorem parse_render (d : Char) (trimWs : Bool) (eol : Str) (fields : List (Str 
   simpa [parseLine, fieldOut] using this
 
 /-- "quote iff needed" -/
-theorem parse_render_minimal (d : Char) (fields : List Str) (h0 : d ≠ '\x00') (hq : d ≠ '"')
+theorem parse_render_minimal (d : Char) (fields : List Str) (h0 : d ≠ '\x00') (hq : d ≠ QUOTE)
     (hne : fields ≠ []) (hclean : ∀ f ∈ fields, Clean f) :
     parseLine { delim := d } (renderLine d (fields.map (fun f => (f, needsQuote d f)))) = fields := by
   have := parse_render d false [] (fields.map (fun f => (f, needsQuote d f))) h0 hq (Or.inl rfl)
@@ -55,23 +56,9 @@ theorem parse_render_minimal (d : Char) (fields : List Str) (h0 : d ≠ '\x00') 
     (by intro p hp; simp only [List.mem_map] at hp; obtain ⟨f, hf, rfl⟩ := hp; exact id)
   simpa [Function.comp_def] using this
 
-theorem needsQuote_le_rfc (d : Char) (f : Str) (h : needsQuote d f = true) : needsQuoteRfc d f = true := by
-  simp only [needsQuote, needsQuoteRfc, Bool.or_eq_true] at *
-  rcases h with h | h
-  · exact Or.inl h
-  · right
-    have hsuf : f.dropWhile isSpace <:+ f := List.dropWhile_suffix _
-    cases hd : f.dropWhile isSpace with
-    | nil => simp [hd] at h
-    | cons a r =>
-      simp only [hd, List.head?_cons, beq_iff_eq, Option.some.injEq] at h
-      subst h
-      have : '"' ∈ f := hsuf.subset (by simp [hd])
-      simpa using this
-
 /-- the conventional rule (quote every field that contains the delimiter or a quote) and
     "quote everything" are supersets of what is needed -/
-theorem parse_render_rfc (d : Char) (fields : List Str) (h0 : d ≠ '\x00') (hq : d ≠ '"')
+theorem parse_render_rfc (d : Char) (fields : List Str) (h0 : d ≠ '\x00') (hq : d ≠ QUOTE)
     (hne : fields ≠ []) (hclean : ∀ f ∈ fields, Clean f) :
     parseLine { delim := d } (renderLine d (fields.map (fun f => (f, needsQuoteRfc d f)))) = fields ∧
     parseLine { delim := d } (renderLine d (fields.map (fun f => (f, true)))) = fields := by
@@ -127,43 +114,6 @@ theorem class_name_of_lookup (m : ClassMap) (h : ClassInv m) (l : Str) (i : Nat)
 
 /-! ## 3. rows of a well-formed table -/
 
-/-- a table as the generator of a file sees it: cells with the decision to quote them -/
-structure Table where
-  header : Option (List (Str × Bool))
-  row0 : List (Str × Bool)
-  rest : List (List (Str × Bool))
-
-def Table.rows (t : Table) : List (List (Str × Bool)) := t.row0 :: t.rest
-def Table.lines (t : Table) : List (List (Str × Bool)) := t.header.toList ++ t.rows
-
-/-- the file: one line per row, fields joined by `d`, lines ended by `eol` LF -/
-def Table.render (d : Char) (eol : Str) (t : Table) : Str := renderFile eol (t.lines.map (renderLine d))
-
-/-- the text of the cells of a row as the parser hands them over (trimmed when `trim_ws` is on) -/
-def fieldsOf (trimWs : Bool) (l : List (Str × Bool)) : List Str := l.map (fun p => if trimWs then trim p.1 else p.1)
-
-structure WellFormed (d : Char) (eol : Str) (t : Table) : Prop where
-  d0 : d ≠ '\x00'
-  dq : d ≠ '"'
-  dn : d ≠ '\n'
-  eol_ok : EolOK d eol
-  /-- rectangular, at least one column -/
-  rect : ∀ l ∈ t.lines, l.length = t.row0.length
-  width : t.row0 ≠ []
-  /-- cells are free of NUL / CR / LF and every cell that needs quotes is quoted -/
-  clean : ∀ l ∈ t.lines, ∀ p ∈ l, Clean p.1 ∧ (p.2 = false → needsQuote d p.1 = false)
-  /-- no line consists of white space only (such a line is skipped by the parser) -/
-  visible : ∀ l ∈ t.lines, isBlank (renderLine d l ++ eol) = false
-
-/-- the columns are consistently typed: the cells of every row convert under the domains the
-    first data row establishes, and the output column is all numbers or all labels (≥ 2 classes) -/
-structure Typed (o : NumOracle F) (outIdx : Option Nat) (trimWs : Bool) (t : Table) : Prop where
-  rows : ∀ r ∈ t.rows, RowOK o (kinds o true (prep outIdx (fieldsOf trimWs t.row0))) (prep outIdx (fieldsOf trimWs r))
-  cls : Regr o (kinds o true (prep outIdx (fieldsOf trimWs t.row0))) (t.rows.map (fun r => prep outIdx (fieldsOf trimWs r))) ∨
-        (Classif o (kinds o true (prep outIdx (fieldsOf trimWs t.row0))) (t.rows.map (fun r => prep outIdx (fieldsOf trimWs r))) ∧
-         (specRows o (kinds o true (prep outIdx (fieldsOf trimWs t.row0))) []
-            (t.rows.map (fun r => prep outIdx (fieldsOf trimWs r)))).1.length ≠ 1)
-
 /-- with output index `k` the record seen by the dataframe is cell `k` followed by the others -/
 theorem prep_some (r : List Str) (k : Nat) (h : k < r.length) : prep (some k) r = r[k] :: r.eraseIdx k := by
   unfold prep rot
@@ -175,19 +125,6 @@ theorem prep_some (r : List Str) (k : Nat) (h : k < r.length) : prep (some k) r 
   · simp only [hk, if_false, List.getElem?_eq_getElem h, List.eraseIdx_eq_take_drop_succ]
 
 theorem prep_none (r : List Str) : prep none r = [] :: r := rfl
-
-theorem records_of_table (d : Char) (eol : Str) (t : Table) (trimWs : Bool) (filter : List Str → Bool)
-    (hwf : WellFormed d eol t) :
-    records { delim := d, trimWs := trimWs } filter (splitLines (t.render d eol)) =
-      (t.lines.map (fieldsOf trimWs)).filter filter := by
-  have := records_render { delim := d, trimWs := trimWs } rfl hwf.d0 hwf.dq hwf.dn eol hwf.eol_ok filter t.lines
-    (fun l hl => by
-      intro h
-      have := hwf.rect l hl
-      rw [h] at this
-      exact hwf.width (List.length_eq_zero_iff.1 this.symm))
-    hwf.clean hwf.visible
-  exact this
 
 /-- **rows_faithful.**  Reading the rendered file of a well-formed, consistently typed table with
     the explicit dialect (delimiter `d`, header flag = whether the table has one) succeeds and yields
@@ -315,11 +252,6 @@ theorem rows_faithful (cfg : Cfg) (o : NumOracle F) (d : Char) (eol : Str) (t : 
     exact ⟨id, h1, lookup_of_mem _ hinv _ _ h2, className_of_mem _ hinv _ _ h2⟩
   · exact hsk
 
-/-- when every cell of the first data row is non-blank no column lacks a domain and the inputs are
-    simply the converted cells, position by position -/
-theorem inputs_positionwise (o : NumOracle F) (ds : List Dom) (xs : List Str) (h : ∀ d ∈ ds, d ≠ .void) :
-    inputVals o ds xs = List.zipWith (cellVal o) ds xs := inputVals_noVoid o ds xs h
-
 /-- **header_names.**  With a header the column names are the (trimmed) header cells, output
     column first; without one they are empty – this is the `skel` clause of `rows_faithful`: -/
 theorem header_names (outIdx : Option Nat) (h : List Str) (n : Nat) :
@@ -380,9 +312,6 @@ theorem var_binding (strong : Bool) (cols : List Col) (vars : List VarSym) (e : 
     intro hi
     simp [evalVar, fetchVar, List.getElem?_eq_getElem hi, pure, Except.pure]
 
-theorem fetchVar_eq (e : Example F) (i : Nat) (h : i < e.input.length) : fetchVar e i = .ok e.input[i] := by
-  simp [fetchVar, List.getElem?_eq_getElem h, pure, Except.pure]
-
 /-! ## 5. sniffer -/
 
 /-- **sniff_agrees.**  On the tables of the class `Unambiguous` (defined in LemmasSniff.lean: at
@@ -407,5 +336,78 @@ theorem sniffed_read_eq_explicit (cfg : Cfg) (o : NumOracle F) (d : Char) (hdr :
     intro hd; subst hd; simp [preferred] at this
   unfold readCsv resolveDialect
   simp [hp.1, hp.2, hs, hd0]
+
+/-! ## 6. the hypotheses can be met -/
+
+/-- a toy oracle: the numbers are the non-empty digit strings -/
+def digitOracle : NumOracle Nat where
+  isNum s := !s.isEmpty && s.all Char.isDigit
+  stod s := if !s.isEmpty && s.all Char.isDigit then some (s.foldl (fun n c => 10 * n + (c.toNat - 48)) 0) else none
+  stoi _ := none
+
+/-- `x,"say ""hi"", you"` and back -/
+example : parseLine { delim := ',' } (renderLine ',' [("x".toList, false), ("say \"hi\", you".toList, true)]) =
+    ["x".toList, "say \"hi\", you".toList] := by
+  have := parse_render ',' false [] [("x".toList, false), ("say \"hi\", you".toList, true)]
+    (by decide) (by decide) (Or.inl rfl) (by simp)
+    (by intro p hp; simp at hp; rcases hp with rfl | rfl <;> exact clean_of_all _ (by decide))
+    (by intro p hp; simp at hp; rcases hp with rfl | rfl <;> simp [needsQuote, isSpace])
+  simpa using this
+
+/-- a table `name,n / "a,b",1 / c,2` (header, text output column 0, numeric input) is well formed and typed -/
+def toyTable : Table :=
+  { header := some [("name".toList, false), ("n".toList, false)],
+    row0 := [("a,b".toList, true), ("1".toList, false)],
+    rest := [[("c".toList, false), ("2".toList, false)]] }
+
+example : WellFormed ',' [] toyTable where
+  d0 := by decide
+  dq := by decide
+  dn := by decide
+  eol_ok := Or.inl rfl
+  rect := by intro l hl; simp [Table.lines, Table.rows, toyTable] at hl; rcases hl with rfl | rfl | rfl <;> rfl
+  width := by simp [toyTable]
+  clean := by
+    intro l hl p hp
+    simp [Table.lines, Table.rows, toyTable] at hl
+    rcases hl with rfl | rfl | rfl <;> simp at hp <;> rcases hp with rfl | rfl <;>
+      (refine ⟨?_, ?_⟩ <;> simp [Clean, needsQuote, isSpace] <;> decide)
+  visible := by
+    intro l hl
+    simp [Table.lines, Table.rows, toyTable] at hl
+    rcases hl with rfl | rfl | rfl <;> simp [renderLine, renderField, esc, isBlank, isSpace]
+
+example : Typed digitOracle (some 0) false toyTable where
+  rows := by
+    intro r hr
+    simp [Table.rows, toyTable] at hr
+    rcases hr with rfl | rfl <;>
+      simp [toyTable, fieldsOf, prep, rot, kinds, kindOf, RowOK, OutOK, InputsOK, CellOK, Stable, isNumber, trim,
+        isBlank, isSpace, digitOracle]
+  cls := by
+    right
+    simp [Table.rows, toyTable, fieldsOf, prep, rot, kinds, kindOf, Classif, outDom, specRows, outVal, encode, lookup,
+      isNumber, trim, isBlank, isSpace, digitOracle]
+
+/-- `x,y / 1,2 / 3,4` is an unambiguous table -/
+example : Unambiguous digitOracle ',' (some ["x".toList, "y".toList])
+    [["1".toList, "2".toList], ["3".toList, "4".toList]] where
+  delim := by simp [preferred]
+  width := ⟨2, by omega, by intro r hr; simp at hr; rcases hr with rfl | rfl <;> rfl,
+    by intro h hh; simp at hh; subst hh; rfl⟩
+  two := by simp
+  data := by
+    intro r hr c hc
+    simp at hr
+    rcases hr with rfl | rfl <;> simp at hc <;> rcases hc with rfl | rfl <;>
+      simp [DataCell, PlainCell, preferred, isBlank, isSpace, isNumber, trim, digitOracle, isAlpha, isUpper, isLower] <;>
+      decide
+  head := by
+    intro h hh c hc
+    simp at hh
+    subst hh
+    simp at hc
+    rcases hc with rfl | rfl <;>
+      simp [HeadCell, PlainCell, preferred, isBlank, isSpace, isNumber, trim, digitOracle] <;> decide
 
 end Vita.C09
